@@ -328,6 +328,7 @@ type agg struct {
 	found       map[string]*found
 	order       []string
 	inconcl     int
+	inconclWhy  []string
 	harnessErrs []string
 	crashes     int
 	wallUS      int64
@@ -397,6 +398,10 @@ func (a *agg) add(r *rec, tier string, keepDigests bool) {
 	}
 	if res.Inconclusive != "" {
 		a.inconcl++
+		if len(a.inconclWhy) < 5 {
+			why, _, _ := strings.Cut(res.Inconclusive, "\n")
+			a.inconclWhy = append(a.inconclWhy, fmt.Sprintf("run %d.%d (%s): %s", r.Run, r.Sub, res.Shape, why))
+		}
 	}
 	if len(res.Violations) > 0 {
 		a.addFound(&found{simID: a.simID, sig: r.Sig, run: r.Run, sub: r.Sub, tier: tier, scenario: r.Scenario, res: res})
@@ -1049,6 +1054,9 @@ func check(id, tier string) int {
 		if exit == 0 {
 			exit = 2
 		}
+	}
+	for _, w := range a.inconclWhy {
+		fmt.Println("INCONCLUSIVE:", firstN(w, 400))
 	}
 	if a.evals > 0 && a.inconcl*20 > a.evals {
 		fmt.Fprintf(os.Stderr, "HARNESS-ERROR: %d of %d runs inconclusive\n", a.inconcl, a.evals)
